@@ -1806,8 +1806,12 @@ impl<'a, E: quiver_core::effects::Effect> Compiler<'a, E> {
             // Register in scope
             // For simple identifier bindings (single binding), preserve the value's provenance
             // so tuple field provenance is preserved. For complex patterns (destructuring),
-            // use Unknown since path resolution is complex.
-            let var_provenance = if bindings.len() == 1 {
+            // use Unknown since path resolution is complex. A sole binder that sits *inside* the
+            // pattern (`=Cons[_, tail]`) is destructuring too: it is a part of the value, and
+            // with the value's provenance it would be narrowed along with the scrutinee (to
+            // `Cons[..]`, losing `Nil`).
+            let var_provenance = if bindings.len() == 1 && pattern::binds_whole_value(&binding_sets)
+            {
                 value_provenance.clone()
             } else {
                 Provenance::Unknown
